@@ -110,6 +110,14 @@ fluxes[diag] = 0` — row `i` scaled by `π_i q⁻_i`, column `j` by `q⁺_j`. -
 def reactiveFlux (π q : Vec) (T : Mat) : Mat :=
   fun i j => if i = j then 0 else T i j * (π i * reverseCommittors q i) * q j
 
+/-- HISTORICAL (fixed in /repo by `fix: reactive_fluxes computed a matrix product for numpy.matrix input`): what the
+dense expression computed BEFORE the fix when `tprob` was a `numpy.matrix` (e.g. from scipy's `.todense()`): `*` was
+the matrix product, so `tprob * (π q⁻)[:, None]` was the column vector `T (π q⁻)` and `… * q⁺` its outer product with
+`q⁺`.  The code now calls `np.asarray` first, so `reactiveFlux` is the model for every dense container; this definition
+is kept only to document why the conversion matters (see `C08.flux_def_npmatrix_prefix_counterexample`). -/
+def reactiveFluxNpMatrix (n : Nat) (π q : Vec) (T : Mat) : Mat :=
+  fun i j => if i = j then 0 else sumTo n (fun k => T i k * (π k * reverseCommittors q k)) * q j
+
 /-- `net = f − fᵀ; net[net < 0] = 0` (`.maximum(0)` for sparse) -/
 def netFlux (f : Mat) : Mat :=
   fun i j => let d := f i j - f j i; if d < 0 then 0 else d
